@@ -531,3 +531,61 @@ def narrowing_sites(ctx, bodies):
         if b is not None:
             visit(b, b)
     return out
+
+
+# ---------------------------------------------------------------------- autodiff wiring
+
+GRAPH_OPTS = {'graph_cuts_visible': True}
+
+
+def erase_graph(t):
+    """drop leaf / detach / inner / from_inner wrappers (value-preserving)"""
+    m = {}
+    for x in T.subterms(t):
+        if x[0] == 'app' and (x[1].startswith('leaf#') or x[1] in ('detach', 'inner', 'from_inner', 'set_require_grad', 'no_grad')) and len(x[2]) >= 1:
+            m[x] = x[2][0]
+    cur = t
+    for _ in range(50):
+        if not m:
+            break
+        nxt = T.subst(cur, m)
+        if nxt is cur:
+            break
+        cur = nxt
+        m = {}
+        for x in T.subterms(cur):
+            if x[0] == 'app' and (x[1].startswith('leaf#') or x[1] in ('detach', 'inner', 'from_inner', 'set_require_grad', 'no_grad')) and len(x[2]) >= 1:
+                m[x] = x[2][0]
+    return cur
+
+
+def grad_wiring_problems(terms):
+    """every grad(f, w): w is a leaf created by require_grad, f was evaluated on that very leaf, and no graph cut lies
+    between the leaf and f's value"""
+    probs = []
+    seen = set()
+    for t in terms:
+        for g in T.atoms(t, lambda x: T.is_app(x, 'grad') or T.is_app(x, 'grad_in')):
+            if g in seen:
+                continue
+            seen.add(g)
+            if g[1] == 'grad_in':
+                probs.append('gradient taken from something that is not the backward pass of a value: %s' % T.show(g)[:120])
+                continue
+            f, w = g[2]
+            w0 = w
+            while T.is_app(w0) and w0[1] in ('detach',):
+                w0 = w0[2][0]
+            if not (T.is_app(w) and w[1].startswith('leaf#')):
+                probs.append('gradient requested for a tensor that is not a require_grad leaf: %s' % T.show(w)[:120])
+                continue
+            if not contains(f, w):
+                probs.append('the differentiated value was not computed from the leaf whose gradient is read (%s)' % w[1])
+                continue
+            # a cut between the leaf and the value: the leaf occurs in f only underneath detach/inner
+            cut_free = T.subst(f, {x: T.sym('cut') for x in T.subterms(f) if x[0] == 'app' and x[1] in ('detach', 'inner', 'no_grad') and contains(x, w)})
+            if not contains(cut_free, w):
+                probs.append('the leaf reaches the differentiated value only through detach/inner (gradient is cut)')
+            elif any(x[0] == 'app' and x[1] in ('detach', 'inner', 'no_grad') and contains(x, w) for x in T.subterms(f)):
+                probs.append('a factor of the differentiated value is detached from the leaf (partial gradient)')
+    return probs
